@@ -210,7 +210,12 @@ type runner struct {
 	in      io.WriteCloser
 	out     *bufio.Reader
 	crashes int
+	hangs   int
 }
+
+// after this many hung requests the run is hopeless (each costs a watchdog period): the remaining
+// cases are not executed and are reported as undecodable (skipped) observations
+const maxHangs = 8
 
 func (r *runner) start() {
 	exe, err := os.Executable()
@@ -236,27 +241,54 @@ func (r *runner) stop() {
 	}
 }
 
-// do runs one request in the worker; crashed = the worker process died while serving it.
-func (r *runner) do(req *workReq) (resp workResp, crashed bool) {
+// how long one request may take before the worker is declared hung and killed
+const watchdog = 20 * time.Second
+
+// do runs one request in the worker; crashed = the worker process died while serving it, hung =
+// it did not answer within the watchdog period (and was killed).
+func (r *runner) do(req *workReq) (resp workResp, crashed, hung bool) {
+	if r.hangs >= maxHangs {
+		return workResp{}, false, true
+	}
 	if r.cmd == nil {
 		r.start()
 	}
 	b, _ := json.Marshal(req)
 	b = append(b, '\n')
-	_, werr := r.in.Write(b)
-	var line []byte
-	var rerr error
-	if werr == nil {
-		line, rerr = r.out.ReadBytes('\n')
+	type answer struct {
+		line []byte
+		err  error
 	}
-	if werr != nil || rerr != nil || json.Unmarshal(line, &resp) != nil {
+	ch := make(chan answer, 1)
+	out := r.out
+	in := r.in
+	go func() {
+		if _, err := in.Write(b); err != nil {
+			ch <- answer{nil, err}
+			return
+		}
+		line, err := out.ReadBytes('\n')
+		ch <- answer{line, err}
+	}()
+	var a answer
+	timer := time.NewTimer(watchdog)
+	select {
+	case a = <-ch:
+		timer.Stop()
+	case <-timer.C:
+		r.cmd.Process.Kill()
+		a = <-ch
+		hung = true
+		r.hangs++
+	}
+	if hung || a.err != nil || json.Unmarshal(a.line, &resp) != nil {
 		r.in.Close()
 		r.cmd.Wait()
 		r.cmd = nil
 		r.crashes++
-		return workResp{}, true
+		return workResp{}, !hung, hung
 	}
-	return resp, false
+	return resp, false, false
 }
 
 // ---------------------------------------------------------------------------------------------
@@ -396,7 +428,10 @@ func optCursorString(s string) sexp.Node {
 	return sexp.Some(edgeNode(tc.Nano, tc.Id))
 }
 
-func observe(resp workResp, crashed bool) (obsT, sexp.Node) {
+func observe(resp workResp, crashed, hung bool) (obsT, sexp.Node) {
+	if hung {
+		return obsT{crashed: true}, sexp.T("hang")
+	}
 	if crashed {
 		return obsT{crashed: true}, sexp.T("crash")
 	}
@@ -467,8 +502,12 @@ func presSexp(ps []presT) sexp.Node {
 }
 
 func (e *env) step(a argSpec, ps []presT) (obsT, sexp.Node) {
-	resp, crashed := e.run.do(&workReq{Edges: e.edges, Getter: e.getter, Pres: ps, TypedNil: e.typedNil, Query: a.query()})
-	o, on := observe(resp, crashed)
+	skipped := e.run.hangs >= maxHangs
+	resp, crashed, hung := e.run.do(&workReq{Edges: e.edges, Getter: e.getter, Pres: ps, TypedNil: e.typedNil, Query: a.query()})
+	o, on := observe(resp, crashed, hung)
+	if skipped {
+		on = sexp.T("skipped-after-hangs")
+	}
 	var ts []sexp.Node
 	for _, t := range resp.Triples {
 		mn, _ := new(big.Int).SetString(t[0], 10)
@@ -907,6 +946,6 @@ func main() {
 		}
 	})
 	if run.crashes > 0 {
-		fmt.Fprintf(os.Stderr, "harness: the worker process died %d times (recorded as (crash) observations)\n", run.crashes)
+		fmt.Fprintf(os.Stderr, "harness: the worker process died or hung %d times (recorded as (crash) / (hang) observations)\n", run.crashes)
 	}
 }
